@@ -133,7 +133,7 @@ def options(draw, lbls, bounds_emphasis=False, algorithms=("overlap", "overlap",
     want_max = draw(st.integers(0, 9)) < (8 if bounds_emphasis else 6)
     if want_max:
         R0 = required_width(lbls, spacing)
-        mode = draw(st.sampled_from(["free", "free", "exact", "exact+", "exact-", "third", "budget", "budget-", "roomy", "far"]))
+        mode = draw(st.sampled_from(["free", "free", "exact", "exact+", "exact-", "third", "budget", "budget-", "budget+", "roomy", "far"]))
         if mode == "free":
             W = draw(st.one_of(st.integers(20, 3000), st.sampled_from([300, 600, 900])))
         elif mode == "exact":
@@ -148,6 +148,10 @@ def options(draw, lbls, bounds_emphasis=False, algorithms=("overlap", "overlap",
             W = R0 / density
         elif mode == "budget-":
             W = R0 / density - draw(st.sampled_from([0.5, 1, 5]))
+        elif mode == "budget+":
+            # just inside the density budget: must stay in one layer (seeded change C04-G splits these when the engine's
+            # default density does not reach the distributor)
+            W = R0 / density + draw(st.sampled_from([0.5, 1, 5, 0.05 * R0]))
         elif mode == "roomy":
             W = 2 * R0 + 100
         else:
